@@ -138,7 +138,14 @@ type netNode struct {
 }
 
 func newNetNode(e *sim.Env, inv string, net_ *gen.Net, nw *simnet.Net, i int, cm syncer.ChainManager, s *chainSUT, opts ...syncer.Option) *netNode {
-	n := &netNode{name: fmt.Sprintf("node%d", i), host: fmt.Sprintf("10.%d.0.%d", i/200, i%200+1), s: s, ps: newPeerStore(e), runErr: make(chan error, 1)}
+	return newNetNodeAt(e, net_, nw, i, fmt.Sprintf("10.%d.0.%d", i/200, i%200+1), true, cm, s, opts...)
+}
+
+// newNetNodeAt creates a node with the given unique-id index and IP address;
+// run=false leaves the syncer's own loops off (the node only serves the
+// connections it forms itself).
+func newNetNodeAt(e *sim.Env, net_ *gen.Net, nw *simnet.Net, i int, host string, run bool, cm syncer.ChainManager, s *chainSUT, opts ...syncer.Option) *netNode {
+	n := &netNode{name: fmt.Sprintf("node%d", i), host: host, s: s, ps: newPeerStore(e), runErr: make(chan error, 1)}
 	n.addr = n.host + ":9981"
 	l, err := nw.Listen(n.addr)
 	if err != nil {
@@ -161,7 +168,9 @@ func newNetNode(e *sim.Env, inv string, net_ *gen.Net, nw *simnet.Net, i int, cm
 		cm = s.cm
 	}
 	n.sy = syncer.New(l, cm, n.ps, gateway.Header{GenesisID: net_.Genesis.ID(), UniqueID: uid, NetAddress: n.addr}, all...)
-	go func() { n.runErr <- n.sy.Run() }()
+	if run {
+		go func() { n.runErr <- n.sy.Run() }()
+	}
 	return n
 }
 
